@@ -498,7 +498,8 @@ func (la *LockAudit) propagate() {
 							}
 							continue
 						}
-						la.find("unguarded", g, posOf(ev.In), p, "call of %s passes %s whose %s (%c) is not held, but the callee accesses guarded state of it (at %s)", fnName(cal), Expr(arg.V), fname(r.field), r.mode, where)
+						_ = where
+						la.find("unguarded", g, posOf(ev.In), p, "call of %s passes %s whose %s (%c) is not held, but the callee accesses guarded state of it", fnName(cal), Expr(arg.V), fname(r.field), r.mode)
 					}
 					for a := range la.acq[cal] {
 						if a.param >= len(ev.Args) || isGo {
@@ -546,7 +547,8 @@ func (la *LockAudit) propagate() {
 		}
 		var rs []string
 		for r, where := range la.req[f] {
-			rs = append(rs, fmt.Sprintf("param %d needs %s (%c) for access at %s", r.param, fname(r.field), r.mode, where))
+			_ = where
+			rs = append(rs, fmt.Sprintf("param %d needs %s (%c)", r.param, fname(r.field), r.mode))
 		}
 		sort.Strings(rs)
 		for _, s := range rs {
